@@ -33,7 +33,7 @@ def plan(tier, seed):
             elif fam == 'ccsg':
                 D = int(rng.integers(1, 9))
             elif fam == 'vmf':
-                D = int(rng.integers(2, 9))
+                D = int(rng.integers(1, 9))          # D = 1: the two-point sphere {-1, +1}
             else:
                 D = int(rng.integers(2, 7))
             lead = LEADS[int(rng.integers(0, len(LEADS)))]
@@ -153,8 +153,10 @@ def v_ccsg(case, R):
     rng = gen.rng_of(case)
     D, lead, N = case['D'], tuple(case['lead']), case['N']
     cond = min(case['cond'], 1e6)
-    cov = gen.hpd(rng, D, cond=cond, lead=lead, scale=float(10 ** rng.uniform(-2, 2)))
-    x = gen.cnormal(rng, (*lead, N, D)) * 2
+    # any overall power level: a covariance of a quiet recording is as valid as one of O(1) (the evaluation points follow the level)
+    scale = float(10 ** (rng.uniform(-2, 2) if rng.uniform() < 0.5 else rng.uniform(-14, 14)))
+    cov = gen.hpd(rng, D, cond=cond, lead=lead, scale=scale)
+    x = gen.cnormal(rng, (*lead, N, D)) * 2 * np.sqrt(scale)
     try:
         got = ComplexCircularSymmetricGaussian(covariance=cov).log_pdf(x)
     except Exception as e:
@@ -192,6 +194,11 @@ def v_vmf(case, R):
         return
     ref = np.empty((*lead, N))
     for idx in np.ndindex(*lead):
+        if D == 1:
+            # the sphere S^0 = {-1, +1} with counting measure: p(x) = exp(kappa mu x) / (2 cosh kappa)
+            kk = float(np.asarray(kappa)[idx])
+            ref[idx] = kk * np.sign(x[idx][..., 0]) * mean[idx][0] - (kk + np.log1p(np.exp(-2 * kk)))
+            continue
         ref[idx] = np.atleast_1d(oracles.vmf_log_pdf(oracles.unit(x[idx]), mean[idx], np.asarray(kappa)[idx]))
     if _cmp(R, 'C07.vmf', got, ref, 1e-9 * (1 + np.abs(ref)), 'vmf', case):
         _sig(R, case)
